@@ -335,7 +335,7 @@ func init() {
 		Level: "exploration",
 		Rule: "metamorphic monitor (whole vs chunked): for each input, ParseFile fed by a scripted reader must equal Parse on the same bytes in error text, diagnostics text and Dump bytes. Partitions: EVERY 2-partition for inputs <= 400 bytes, one byte per read, random k-partitions, zero-byte reads at every step position (and at every offset for inputs <= 120 bytes), data together with EOF, and the real 4096-byte pages with the page boundary swept over a 64-byte window of the program (2 and 3 pages). " +
 			"Inputs: hand-picked ones for every lexical-failure kind, multi-byte characters in strings, comments, as U+0085/U+00A0 whitespace and as stray characters, two-character operators and escapes; the repository's testdata; generated programs (valid, with static errors, token-damaged) under hostile layout. " +
-			"distinct = hash(input, read log); non-trivial = at least two non-empty chunks were delivered Also: 170 non-consecutive zero-byte reads; irregular prime-sized reads; tokens longer than a read page (strings, identifiers, numbers, comments); pieces restarting at each long token; files of another kind as text (bytecode dumps, other headers), a 14 kB input with syntax errors pages apart; record-aligned inputs (long string statements and reads all multiples of 16/64/256/512 bytes, so buffer lengths recur); stray 4-byte characters, a byte order mark and bare Latin-1 blank bytes in the fixed inputs.",
+			"distinct = hash(input, read log); non-trivial = at least two non-empty chunks were delivered Also: 170 non-consecutive zero-byte reads; irregular prime-sized reads; tokens longer than a read page (strings, identifiers, numbers, comments); pieces restarting at each long token; files of another kind as text (bytecode dumps, other headers), a 14 kB input with syntax errors pages apart; record-aligned inputs (long string statements and reads all multiples of 16/64/256/512 bytes, so buffer lengths recur); stray 4-byte characters, a byte order mark and bare Latin-1 blank bytes in the fixed inputs. Every kind of malformed UTF-8 (surrogates, overlong forms, beyond U+10FFFF, cut short, stray continuation and impossible bytes) as a stray character, in strings, comments and next to tokens, each with every 2-partition. One file parse in 64, and every file parse of an input of at most 8 bytes, is preceded by a library call of another kind (failed long parse, long run, file parse cut off by a read error, runtime error, Unmarshal, truncated load, failed Dump).",
 		Assumptions:   []string{"Parse on the whole input is the reference", "thorough tier repeats the workload under the race detector build"},
 		MinNontrivial: 1000,
 		RaceAlso:      func(tier string) bool { return tier == "thorough" },
